@@ -17,6 +17,8 @@ from vlib.pipeline import (BASES, MODELS, MODEL_IDX, MUT_ADD, MUT_NONE,
                            mutated, outcome_sig, run_load, run_load_with)
 
 install_stubs()
+from vlib import common as _common  # noqa: E402
+_common.STYLE_FAITHFUL[0] = True     # replay keeps scalar/collection styles
 QUICK = tier() == 'quick'
 LIM = pipeline.Limits(True)
 LIM.nretags, LIM.nvals = 3, 2       # the pair doubles the cost
@@ -171,7 +173,8 @@ def _slices(quick):
     out = []
     for k, (mi, bi, n) in enumerate(BASES):
         name = MODELS[mi][0]
-        if name not in pipeline.CORE or (quick and bi != 0):
+        if name not in pipeline.CORE or (quick and bi != 0
+                                         and name != 'uni'):
             continue
         ts = [T_REORDER, T_STYLE, T_EXTRA]
         if name == 'coll':
